@@ -5,11 +5,11 @@ MC = 'github.com/whawty/auth/internal/verifmc'
 AGENT_RW = {'imports': {
     'store.go': {'net/http': MC + '/vhttp', 'os/signal': MC + '/vsignal', 'time': MC + '/vtime'},
     'hooks.go': {'os/exec': MC + '/vexec', 'time': MC + '/vtime'},
-    '*': {'time': MC + '/vtime'}}}
+    '*': {'time': MC + '/vtime', 'sync': MC + '/vsync'}}}
 # the store package gets the virtual clock as well: record timestamps must not depend on when, in real
 # time, an execution happens to run
 STORE_FILEOPS = [('store', {'fileops': True, 'imports': {'*': {'time': MC + '/vtime'}}})]
-SASL_RW = {'imports': {'*': {'time': MC + '/vtime'}}}
+SASL_RW = {'imports': {'*': {'time': MC + '/vtime', 'sync': MC + '/vsync'}}}
 AGENT_SEQ = {'only_imports': True, 'imports': {'web_session.go': {'time': MC + '/vtime'}}}
 
 
@@ -18,7 +18,7 @@ ENGINES = [
      'kind_free_text': 'in-process DFS over environment answers for the C PAM module (clang ASan/UBSan, --wrap of socket calls, stub PAM headers, virtual time)'},
     {'name': 'tracefs', 'path': 'tracefs harness/drv harness/oracle', 'serves_properties': ['C03', 'C08', 'C09', 'C15'],
      'kind_free_text': 'strace-based system-call trace of a driver built from the real code, replayed in a Python file-system persistence model (validated against the real directory); exhaustive crash-state / fault / path enumeration'},
-    {'name': 'mc', 'path': 'mc tools/mcrewrite harness/agentmc harness/saslmc', 'serves_properties': ['C04', 'C05', 'C10', 'C11', 'C12', 'C18', 'C19'],
+    {'name': 'mc', 'path': 'mc tools/mcrewrite harness/agentmc harness/saslmc', 'serves_properties': ['C04', 'C05', 'C06', 'C10', 'C11', 'C12', 'C18', 'C19'],
      'kind_free_text': 'hand-written controlled scheduler + stateless/state-pruned DFS explorer for Go channel code, bound to the real source by an AST rewriter applied through go build -overlay'},
     {'name': 'seqx', 'path': 'harness/c01 harness/c02 harness/c14 harness/c16 harness/c18 harness/x', 'serves_properties': ['C01', 'C02', 'C14', 'C16', 'C18'],
      'kind_free_text': 'explicit-state BFS over operation sequences on the real store.Dir with a reference model (hand-written, Go)'},
@@ -94,7 +94,8 @@ CHECKS = {
         'text': 'In every reached store state every cell of the matrix is sent to the real mux; refused cells must have a non-success status, disclose no list and leave the store byte-identical; authorised cells must have exactly the model effect; effective requests generate successor states (BFS).',
         'note': 'Handlers are driven in-process (httptest) against a real agent; tokens are issued once; the number of explored states is capped (reported).',
         'parts': [RwTest('webapi', 'cmd/whawty-auth', ['harness/agentseq'], AGENT_SEQ, '^TestC06$'),
-                  RwTest('race', 'cmd/whawty-auth', ['harness/agentseq'], AGENT_SEQ, '^TestRaceC06$', race=True)],
+                  RwTest('race', 'cmd/whawty-auth', ['harness/agentseq'], AGENT_SEQ, '^TestRaceC06$', race=True),
+                  McPart('mc', 'C06', 'cmd/whawty-auth', ['harness/agentmc'], AGENT_RW, extra_rewrites=STORE_FILEOPS)],
     },
     'C07': {
         'level': 'exploration',
